@@ -548,7 +548,7 @@ def check_contacts(chk, fi: FuncInfo, loop: ast.For, m: PairsModel, eq_fields) -
         chk.ok("contact-extra-filter", fi.site(loop), f"{n_silent} paths record nothing, each for one of: same type, same residue, no normal, angle window, unclassified base-phosphate / base-ribose contact")
 
 
-def check_registration(chk, fi: FuncInfo, m: PairsModel, spec) -> None:
+def check_registration(chk, fi: FuncInfo, m: PairsModel, spec, distinct: bool = False) -> None:
     """What the residue loop puts into the KD-tree and the site dictionaries (candidate atoms, typing, model filter)."""
     repo = chk.repo
     s = m.sites
@@ -570,6 +570,28 @@ def check_registration(chk, fi: FuncInfo, m: PairsModel, spec) -> None:
             chk.expect(not diffs, "contact-atoms", fi.site(rl), f"candidate atoms = base acceptors + ribose + phosphate acceptors + base donors of the residue's own base (evaluated for {', '.join(letters)})", f"the candidate atom list `{norm(s.names_iter)[:90]}` is not acceptors(base)+ribose+phosphate+donors(base) of the residue's one-letter name: {diffs}", K(fi, "atoms"), found=diffs)
         except Exception as ex:
             chk.error("contact-atoms", fi.site(rl), f"candidate atom list `{norm(s.names_iter)[:80]}` not evaluable: {ex}")
+        if distinct:
+            # one KD-tree point per atom: a name listed twice puts two coincident points into the tree, query_pairs then returns
+            # every contact of that atom twice and Counter(labels) counts one donor-acceptor contact as two
+            dup = {}
+            try:
+                for L in letters:
+                    got = list(fold_for(repo, fi.module.name, s.names_iter, {s.res_var: _Res(L)}))
+                    d = sorted({x for x in got if got.count(x) > 1})
+                    if d:
+                        dup[L] = d
+                chk.expect(
+                    not dup,
+                    "contact-distinct-points",
+                    fi.site(rl),
+                    "every candidate atom name occurs once per residue: one KD-tree point per atom, so each contact is counted once",
+                    f"the candidate atom list `{norm(s.names_iter)[:100]}` names {sorted({x for v in dup.values() for x in v})} twice for bases {sorted(dup)}: the atom is put into the KD-tree as two coincident points, query_pairs returns each of its contacts twice, and one donor-acceptor contact alone reaches the `at least two contacts` threshold",
+                    K(fi, "duplicate-points:" + ",".join(sorted({x for v in dup.values() for x in v}))),
+                    expected="each name once",
+                    found=dup,
+                )
+            except Exception as ex:
+                chk.error("contact-distinct-points", fi.site(rl), f"candidate atom list not evaluable: {ex}")
         fa = norm(s.atom)
         chk.expect(fa.startswith(f"{s.res_var}.find_atom(") , "contact-atoms", fi.site(rl), "each candidate atom is fetched by name from the residue itself", f"the registered atom is `{fa[:80]}`, not {s.res_var}.find_atom(<name>)", K(fi, "atom-fetch"))
     # typing per (letter, name)
